@@ -31,6 +31,9 @@ type Spec struct {
 	NoNetns bool
 	// RacesAreViolations: a race report in a child is a violation of this property (C19).
 	RacesAreViolations bool
+	// RaceUpgrade lets a check turn particular race reports into violations of its own
+	// property (e.g. unsynchronised map access for the no-crash property).
+	RaceUpgrade func(report string) (string, bool)
 	// ClassifyHang decides what a watchdog expiry means: (signature, true) for a violation,
 	// ("", false) for inconclusive. nil means inconclusive.
 	ClassifyHang func(dump string) (string, bool)
@@ -237,6 +240,10 @@ func runMain(args []string) int {
 				racesSeen[r.Sig] = r
 				if spec.RacesAreViolations {
 					viols = append(viols, located{Violation{Sig: "race:" + r.Sig, Detail: r.Text}, o.batch, o.dir})
+				} else if spec.RaceUpgrade != nil {
+					if sig, bad := spec.RaceUpgrade(r.Text); bad {
+						viols = append(viols, located{Violation{Sig: sig, Detail: r.Text}, o.batch, o.dir})
+					}
 				}
 			}
 		}
